@@ -27,6 +27,8 @@ type CEnv struct {
 	useLocals bool
 	inOld     bool
 	atPos     token.Pos
+	done      func(n, t string) string // iterator invariants: entries already visited
+	parentEntry *State // closures: the state in which the enclosing function was entered (pfresh)
 }
 
 var (
@@ -57,7 +59,35 @@ func (fr *Frame) env(st *State) *CEnv {
 			e.names[p.Name()] = fr.params[i]
 		}
 	}
+	e.parentEntry = fr.parentEntryOf(fr.fn)
 	return e
+}
+
+// parentEntryOf: the entry state of the activation of fn's enclosing function. Inside that
+// activation (inlined iterator frames included) it is the real entry state; when a closure is
+// verified on its own it is an unknown earlier state (allocation only grew since).
+func (fr *Frame) parentEntryOf(fn *ssa.Function) *State {
+	if fn == nil || fn.Parent() == nil {
+		return nil
+	}
+	for f := fr; f != nil; f = f.parent {
+		if f.fn == fn.Parent() {
+			return f.entry
+		}
+	}
+	c := fr.c
+	if c.parentState == nil {
+		ps := newState()
+		ps.heaps["alloc"] = c.smt.declare("alloc@parent", allocSort)
+		top := fr
+		for top.parent != nil {
+			top = top.parent
+		}
+		cur := c.heapGet(top.entry, "alloc", allocSort)
+		c.smt.assume(fmt.Sprintf("(forall ((r Int)) (! (=> (select alloc@parent r) (select %s r)) :pattern ((select alloc@parent r)) :pattern ((select %s r))))", cur, cur), "allocation only grows")
+		c.parentState = ps
+	}
+	return c.parentState
 }
 
 // env for a callee's contract at a call site.
@@ -473,10 +503,11 @@ func (e *CEnv) index(x *CExpr) (Val, error) {
 	case *types.Slice:
 		name, sort := c.elemHeap(u.Elem())
 		s := base.Term
-		return Val{T: u.Elem(), Term: sel(sel(c.heapGet(e.st, name, sort), app("sl_base", s)), app("+", app("sl_off", s), idx.Term))}, nil
+		return Val{T: u.Elem(), Term: sel(sel(c.heapGet(e.st, name, sort), slBase(c.smt, s)), elemIdx(slOff(c.smt, s), idx.Term))}, nil
 	case *types.Map:
 		has, val := c.mapRead(e.st, base.T, base.Term, idx.Term)
-		t := ite(has, val, c.zero(u.Elem()))
+		t := val
+		c.mapZeroFact(has, val, u.Elem())
 		if !strings.Contains(t, "q.") {
 			c.heapTyped(u.Elem(), t)
 			c.closedHeap(e.st, u.Elem(), t, 0)
@@ -771,6 +802,18 @@ func (e *CEnv) callExpr(x *CExpr) (Val, error) {
 		return vs, nil
 	}
 	switch x.Name {
+	case "done":
+		if e.done == nil {
+			return Val{}, fmt.Errorf("done() is only available in iter invariants")
+		}
+		as, err := evalArgs()
+		if err != nil {
+			return Val{}, err
+		}
+		if len(as) != 2 {
+			return Val{}, fmt.Errorf("done(name, tagsKey)")
+		}
+		return Val{T: tBool, Term: e.done(as[0].Term, as[1].Term)}, nil
 	case "deref":
 		// deref(p): the value a pointer denotes (statically known address or opaque Ptr term)
 		pv, err := e.eval(x.Args[0])
@@ -818,6 +861,14 @@ func (e *CEnv) callExpr(x *CExpr) (Val, error) {
 			t = and(t, eq(app("pf_ref", p), c.termOf(ov)))
 		}
 		return Val{T: tBool, Term: t}, nil
+	case "adler32":
+		as, err := evalArgs()
+		if err != nil {
+			return Val{}, err
+		}
+		c.smt.declareFun("adler32_of_str", []string{"Str"}, "Int")
+		t := app("adler32_of_str", as[0].Term)
+		return Val{T: tInt, Term: t}, nil
 	case "objOf":
 		as, err := evalArgs()
 		if err != nil {
@@ -863,6 +914,16 @@ func (e *CEnv) callExpr(x *CExpr) (Val, error) {
 			return Val{}, err
 		}
 		return Val{T: tBool, Term: sel(c.heapGet(e.st, "alloc", allocSort), as[0].Term)}, nil
+	case "pfresh":
+		// pfresh(x): x was not allocated when the function enclosing this closure was entered
+		as, err := evalArgs()
+		if err != nil {
+			return Val{}, err
+		}
+		if e.parentEntry == nil {
+			return Val{}, fmt.Errorf("pfresh() is only available in contracts of closures")
+		}
+		return Val{T: tBool, Term: and(not(eq(as[0].Term, "0")), not(sel(c.heapGet(e.parentEntry, "alloc", allocSort), as[0].Term)))}, nil
 	case "fresh":
 		as, err := evalArgs()
 		if err != nil {
@@ -929,6 +990,13 @@ func (e *CEnv) callExpr(x *CExpr) (Val, error) {
 		}
 		tt := map[string]types.Type{"wrap64": types.Typ[types.Int64], "wrapu64": types.Typ[types.Uint64], "wrapu32": types.Typ[types.Uint32], "wrap32": types.Typ[types.Int32]}[x.Name]
 		return Val{T: tInt, Term: wrapTo(tt, as[0].Term)}, nil
+	case "mod":
+		// Euclidean remainder (for non-negative operands the same as Go's %)
+		as, err := evalArgs()
+		if err != nil {
+			return Val{}, err
+		}
+		return Val{T: tInt, Term: app("mod", as[0].Term, as[1].Term)}, nil
 	case "imin", "imax":
 		as, err := evalArgs()
 		if err != nil {
